@@ -2,6 +2,7 @@
 # confirms every seeded change in a FRESH scratch worktree of /repo (removed afterwards)
 for id in $(ls /verif/seeded | grep -v MATRIX); do
   [ -f /verif/seeded/$id/patch.diff ] || continue
+  [ -f /verif/seeded/$id/confirm.log ] && continue
   wt=/tmp/cf_$id
   git -C /repo worktree add -q $wt HEAD || continue
   cp /verif/seeded/$id/demo_seeded.py $wt/
